@@ -188,7 +188,8 @@ func c11Scenarios(thorough bool) []*explore.Scenario {
 				if i == j && w1.Kind != explore.Put {
 					continue
 				}
-				if !thorough && (i*len(m.ops)+j)%4 != 1 {
+				// quick: every ordered pair on the split-heavy bases, a quarter of the pairs elsewhere
+				if !thorough && (i*len(m.ops)+j)%4 != 1 && m.base != "SP" && m.base != "SC" {
 					continue
 				}
 				scs = append(scs, &explore.Scenario{Name: fmt.Sprintf("S2-%s-%d%d", m.base, i, j), Base: m.base, Cfg: m.cfg, Threads: []explore.ThreadProg{scan, {w1, w2}}, Bound: -1, QuietPop: true})
